@@ -355,6 +355,9 @@ func (c *Ctx) rulesR6recmono() {
 		return
 	}
 	n := 0
+	// writeDb, its closures, and the private functions of the package it calls
+	// or forks (the batch write as a method instead of a closure)
+	inWrite := map[*ssa.Function]*ssa.Function{}
 	for _, f := range c.Funcs {
 		tf := topFunc(f)
 		if tf.Name() != "writeDb" || tf.Pkg == nil {
@@ -364,6 +367,38 @@ func (c *Ctx) rulesR6recmono() {
 		if rel != ph+"/bbolt" && rel != ph+"/badger" {
 			continue
 		}
+		inWrite[f] = tf
+	}
+	for d := 0; d < 2; d++ {
+		for f, root := range inWrite {
+			for _, b := range f.Blocks {
+				for _, ins := range b.Instrs {
+					ci, ok := ins.(ssa.CallInstruction)
+					if !ok {
+						continue
+					}
+					cal := ci.Common().StaticCallee()
+					if cal == nil || len(cal.Blocks) == 0 || cal.Pkg != root.Pkg || cal.Object() == nil || cal.Object().Exported() || cal.Name() == "encode" {
+						continue
+					}
+					if _, ok := inWrite[cal]; !ok {
+						inWrite[cal] = root
+						for _, an := range cal.AnonFuncs {
+							inWrite[an] = root
+						}
+					}
+				}
+			}
+		}
+	}
+	var fs []*ssa.Function
+	for _, f := range c.Funcs {
+		if _, ok := inWrite[f]; ok {
+			fs = append(fs, f)
+		}
+	}
+	for _, f := range fs {
+		tf := inWrite[f]
 		for _, b := range f.Blocks {
 			for _, ins := range b.Instrs {
 				call, ok := ins.(*ssa.Call)
